@@ -10,28 +10,47 @@ Local Open Scope N_scope.
 Definition no_special (n t i : bytes) : option (option (bytes * bytes)) := None.
 
 (** the callbacks a value should produce, defined directly on the value *)
-Fixpoint callbacks (t : ty) (v : val) {struct v} : list cb :=
+Definition raw_of (v : val) : N := match v with VRaw x => x | _ => 0 end.
+Definition is_char (t : ty) : bool := match t with TArith AChar => true | _ => false end.
+
+(** [b] = the visitor asks for whole strings (ToStringVisitor returns true from SequenceBegin of a char sequence) *)
+Fixpoint callbacks_b (b : bool) (t : ty) (v : val) {struct v} : list cb :=
   match t, v with
   | TArith a, VRaw x => [CArith (atag a) x]
-  | TSeq _ e, VSeq vs => [CSeqBegin (N.of_nat (length vs)) (tag e)] ++ concat (map (callbacks e) vs) ++ [CSeqEnd]
+  | TSeq _ e, VSeq vs =>
+      if b && is_char e then [CSeqChars (map raw_of vs)]
+      else [CSeqBegin (N.of_nat (length vs)) (tag e)] ++ concat (map (callbacks_b b e) vs) ++ [CSeqEnd]
   | TTuple ts, VTup vs =>
       [CTupleBegin (concat (map tag ts))] ++
       (fix go (vs : list val) (ts : list ty) {struct vs} : list cb :=
-         match vs, ts with v :: vs', t :: ts' => callbacks t v ++ go vs' ts' | _, _ => [] end) vs ts ++ [CTupleEnd]
+         match vs, ts with v :: vs', t :: ts' => callbacks_b b t v ++ go vs' ts' | _, _ => [] end) vs ts ++ [CTupleEnd]
   | TStruct n fs, VTup vs =>
       [CStructBegin n (concat (map (fun f => [96] ++ fst f ++ [39] ++ tag (snd f)) fs))] ++
       (fix go (vs : list val) (fs : list (bytes * ty)) {struct vs} : list cb :=
-         match vs, fs with v :: vs', f :: fs' => [CFieldBegin (fst f) (tag (snd f))] ++ callbacks (snd f) v ++ [CFieldEnd] ++ go vs' fs' | _, _ => [] end) vs fs ++ [CStructEnd]
+         match vs, fs with v :: vs', f :: fs' => [CFieldBegin (fst f) (tag (snd f))] ++ callbacks_b b (snd f) v ++ [CFieldEnd] ++ go vs' fs' | _, _ => [] end) vs fs ++ [CStructEnd]
   | TOpt _, VNone => [CVariantBegin 0 [48]; CNull; CVariantEnd]
-  | TOpt e, VSome v' => [CVariantBegin 1 (tag e)] ++ callbacks e v' ++ [CVariantEnd]
+  | TOpt e, VSome v' => [CVariantBegin 1 (tag e)] ++ callbacks_b b e v' ++ [CVariantEnd]
   | TVariant ts, VAlt i v' =>
       match nth_error ts i with
       | Some TUnit => [CVariantBegin (N.of_nat i) [48]; CNull; CVariantEnd]
-      | Some ti => [CVariantBegin (N.of_nat i) (tag ti)] ++ callbacks ti v' ++ [CVariantEnd]
+      | Some ti => [CVariantBegin (N.of_nat i) (tag ti)] ++ callbacks_b b ti v' ++ [CVariantEnd]
       | None => []
       end
   | TVariant ts, VValueless => [CVariantBegin (N.of_nat (length ts)) [48]; CNull; CVariantEnd]
   | _, _ => []
+  end.
+Notation callbacks := (callbacks_b false).
+
+(** struct names the visitor's printStruct hook does not take over *)
+Fixpoint plain (sp : bytes -> bytes -> bytes -> option (option (bytes * bytes))) (t : ty) : Prop :=
+  match t with
+  | TSeq _ e => plain sp e
+  | TOpt e => plain sp e
+  | TTuple ts => (fix all (l : list ty) : Prop := match l with [] => True | x :: r => plain sp x /\ all r end) ts
+  | TVariant ts => (fix all (l : list ty) : Prop := match l with [] => True | x :: r => plain sp x /\ all r end) ts
+  | TStruct n fs => (forall i, sp n (concat (map (fun f => [96] ++ fst f ++ [39] ++ tag (snd f)) fs)) i = None) /\
+                    (fix all (l : list (bytes * ty)) : Prop := match l with [] => True | x :: r => plain sp (snd x) /\ all r end) fs
+  | _ => True
   end.
 
 (** the universe of the theorem; [inv] = may appear as a variant alternative (where monostate is allowed) *)
@@ -89,24 +108,26 @@ Proof. intros Hne Hp. cbn [tuple_loop]. rewrite Hp. destruct e; [congruence|refl
 
 Section Agree.
 Variable full : bytes.
+Variable b : bool.
+Variable sp : bytes -> bytes -> bytes -> option (option (bytes * bytes)).
 
 Definition agrees (t : ty) (v : val) : Prop :=
   forall fuel rest, (depth t <= fuel)%nat ->
-    visit false no_special fuel full (tag t) (spec_enc t v ++ rest) = VOk (callbacks t v, rest).
+    visit b sp fuel full (tag t) (spec_enc t v ++ rest) = VOk (callbacks_b b t v, rest).
 
 (** tuple members: the loop pops the member tags one by one *)
 Lemma tuple_loop_agrees f : forall vs ts rest acc n,
-  Forall2 (fun v t => ty_ok t = true /\ forall r, visit false no_special f full (tag t) (spec_enc t v ++ r) = VOk (callbacks t v, r)) vs ts ->
+  Forall2 (fun v t => ty_ok t = true /\ forall r, visit b sp f full (tag t) (spec_enc t v ++ r) = VOk (callbacks_b b t v, r)) vs ts ->
   (length ts < n)%nat ->
-  tuple_loop (visit false no_special f full) n (concat (map tag ts)) (spec_members vs ts ++ rest) acc
+  tuple_loop (visit b sp f full) n (concat (map tag ts)) (spec_members vs ts ++ rest) acc
     = VOk (acc ++ (fix go (vs : list val) (ts : list ty) {struct vs} : list cb :=
-                     match vs, ts with v :: vs', t :: ts' => callbacks t v ++ go vs' ts' | _, _ => [] end) vs ts ++ [CTupleEnd], rest).
+                     match vs, ts with v :: vs', t :: ts' => callbacks_b b t v ++ go vs' ts' | _, _ => [] end) vs ts ++ [CTupleEnd], rest).
 Proof.
   induction vs as [|v vs IH]; intros ts rest acc n H Hn; inversion H as [|? t ? ts' [Hok Hv] Hrest]; subst.
   - destruct n; [lia|]. cbn. reflexivity.
   - destruct n; [cbn in Hn; lia|]. cbn [map concat spec_members]. rewrite <- !app_assoc.
     rewrite (tuple_loop_step _ n _ (tag t) _ _ _ (tag_nonempty t) (tag_pop_tag t _ Hok)).
-    rewrite Hv. rewrite (IH ts' rest (acc ++ callbacks t v) n Hrest) by (cbn in Hn; lia).
+    rewrite Hv. rewrite (IH ts' rest (acc ++ callbacks_b b t v) n Hrest) by (cbn in Hn; lia).
     rewrite <- !app_assoc. reflexivity.
 Qed.
 
@@ -118,9 +139,9 @@ Proof.
   - destruct (N.eqb_spec x c) as [->|Hne]; [exfalso; apply H; now left|]. f_equal. apply IH. intros Hin. apply H. now right.
 Qed.
 
-Lemma firstn_app_exact {A} (a b : list A) : firstn (length a) (a ++ b) = a.
+Lemma firstn_app_exact {A} (a c : list A) : firstn (length a) (a ++ c) = a.
 Proof. rewrite firstn_app, firstn_all, Nat.sub_diag, firstn_O. apply app_nil_r. Qed.
-Lemma skipn_app_exact {A} (a b : list A) : skipn (length a) (a ++ b) = b.
+Lemma skipn_app_exact {A} (a c : list A) : skipn (length a) (a ++ c) = c.
 Proof. rewrite skipn_app, skipn_all, Nat.sub_diag. reflexivity. Qed.
 
 Lemma tag_pop_label_spec label rest : ~ In 39 label -> tag_pop_label (96 :: label ++ 39 :: rest) = (label, rest).
@@ -144,11 +165,11 @@ Definition fields_tag (fs : list (bytes * ty)) : bytes := concat (map (fun f => 
 
 Lemma struct_loop_agrees f : forall vs fs rest acc n,
   Forall2 (fun v fd => name_ok (fst fd) = true /\ ty_ok (snd fd) = true /\
-             forall r, visit false no_special f full (tag (snd fd)) (spec_enc (snd fd) v ++ r) = VOk (callbacks (snd fd) v, r)) vs fs ->
+             forall r, visit b sp f full (tag (snd fd)) (spec_enc (snd fd) v ++ r) = VOk (callbacks_b b (snd fd) v, r)) vs fs ->
   (length (fields_tag fs) < n)%nat ->
-  struct_loop (visit false no_special f full) n (fields_tag fs) (spec_members vs (map snd fs) ++ rest) acc
+  struct_loop (visit b sp f full) n (fields_tag fs) (spec_members vs (map snd fs) ++ rest) acc
     = VOk (acc ++ (fix go (vs : list val) (fs : list (bytes * ty)) {struct vs} : list cb :=
-                     match vs, fs with v :: vs', f :: fs' => [CFieldBegin (fst f) (tag (snd f))] ++ callbacks (snd f) v ++ [CFieldEnd] ++ go vs' fs' | _, _ => [] end) vs fs ++ [CStructEnd], rest).
+                     match vs, fs with v :: vs', f :: fs' => [CFieldBegin (fst f) (tag (snd f))] ++ callbacks_b b (snd f) v ++ [CFieldEnd] ++ go vs' fs' | _, _ => [] end) vs fs ++ [CStructEnd], rest).
 Proof.
   induction vs as [|v vs IH]; intros fs rest acc n H Hn; inversion H as [|? fd ? fs' (Hl & Hok & Hv) Hrest]; subst.
   - destruct n; [lia|]. cbn. reflexivity.
@@ -195,9 +216,9 @@ Qed.
 End LoopN.
 
 Lemma seq_loop_agrees f e : forall vs rest acc,
-  Forall (fun v => forall r, visit false no_special f full (tag e) (spec_enc e v ++ r) = VOk (callbacks e v, r)) vs ->
-  seq_loop (visit false no_special f full) (tag e) (length vs) (concat (map (spec_enc e) vs) ++ rest) acc
-    = VOk (acc ++ concat (map (callbacks e) vs) ++ [CSeqEnd], rest).
+  Forall (fun v => forall r, visit b sp f full (tag e) (spec_enc e v ++ r) = VOk (callbacks_b b e v, r)) vs ->
+  seq_loop (visit b sp f full) (tag e) (length vs) (concat (map (spec_enc e) vs) ++ rest) acc
+    = VOk (acc ++ concat (map (callbacks_b b e) vs) ++ [CSeqEnd], rest).
 Proof.
   induction vs as [|v vs IH]; intros rest acc H; [cbn; reflexivity|]. inversion H; subst.
   cbn [length seq_loop map concat]. rewrite <- !app_assoc, H2, IH by assumption. rewrite <- !app_assoc. reflexivity.
@@ -253,75 +274,92 @@ Proof. destruct t; (now left) || (right; discriminate). Qed.
 Lemma simple_weaken t : simple true t = true -> t <> TUnit -> simple false t = true.
 Proof. destruct t; cbn; auto; congruence. Qed.
 
-Theorem visit_agrees_partial full : forall v t inv, wt t v = true -> simple inv t = true -> t <> TUnit -> ty_ok t = true -> short v = true -> agrees full t v.
+Lemma is_c_tag t : (match tag t with [99] => true | _ => false end) = is_char t.
+Proof. destruct t as [a| | | | | | |]; try reflexivity. destruct a; reflexivity. Qed.
+
+Lemma chars_enc vs : (forall x, In x vs -> wt (TArith AChar) x = true) -> concat (map (spec_enc (TArith AChar)) vs) = map raw_of vs.
 Proof.
-  induction v using val_ind'; intros t inv Hwt Hs Hnu Hok Hsh; destruct t; try discriminate; try congruence; intros fuel rest Hfuel;
+  induction vs as [|v vs IH]; intros H; [reflexivity|]. cbn [map concat]. rewrite IH by (intros x Hx; apply H; now right). f_equal.
+  specialize (H v (or_introl eq_refl)). destruct v; try discriminate H. cbn [wt] in H. apply N.ltb_lt in H. cbn [spec_enc raw_of awidth le_enc].
+  rewrite N.mod_small by (cbn in H; lia). reflexivity.
+Qed.
+
+Theorem visit_agrees_gen full b sp : forall v t inv, wt t v = true -> simple inv t = true -> t <> TUnit -> ty_ok t = true -> short v = true -> plain sp t -> agrees full b sp t v.
+Proof.
+  induction v using val_ind'; intros t inv Hwt Hs Hnu Hok Hsh Hpl; destruct t; try discriminate; try congruence; intros fuel rest Hfuel;
     (destruct fuel as [|f]; [cbn [depth] in Hfuel; lia|]).
   - (* arithmetic leaf *)
     cbn [wt] in Hwt. apply N.ltb_lt in Hwt. cbn [tag spec_enc callbacks].
-    assert (E : visit false no_special (S f) full [atag a] (le_enc (awidth a) x ++ rest) = visit_arith (atag a) (le_enc (awidth a) x ++ rest)) by (destruct a; reflexivity).
+    assert (E : visit b sp (S f) full [atag a] (le_enc (awidth a) x ++ rest) = visit_arith (atag a) (le_enc (awidth a) x ++ rest)) by (destruct a; reflexivity).
     rewrite E. unfold visit_arith. rewrite arith_of_atag, take_n_le_enc, le_dec_enc by exact Hwt. reflexivity.
   - (* sequence *)
     cbn [wt] in Hwt. apply andb_true_iff in Hwt. destruct Hwt as [Hwt _]. apply andb_true_iff in Hwt. destruct Hwt as [Hall Hlen].
     rewrite forallb_forall in Hall. apply N.ltb_lt in Hlen.
     cbn [short] in Hsh. apply andb_true_iff in Hsh. destruct Hsh as [H32 Hshs]. apply N.leb_le in H32. rewrite forallb_forall in Hshs.
     cbn [simple ty_ok depth] in *.
-    cbn [tag spec_enc callbacks visit]. rewrite <- app_assoc, take_n_le_enc, le_dec_enc by (cbn; lia).
-    pose proof (tag_pop_tag t [] Hok) as Hp. rewrite app_nil_r in Hp. rewrite Hp. cbn [andb].
-    destruct (N.ltb_spec 32 (N.of_nat (length vs))); [lia|].
-    rewrite seq_loopN_eq, Nat2N.id, seq_loop_agrees.
-    + cbn [prepend app]. reflexivity.
-    + assert (Hnt : t <> TUnit) by (intros ->; discriminate Hs).
-      rewrite Forall_forall in *. intros v Hv r. apply (H v Hv t false (Hall v Hv) Hs Hnt Hok (Hshs v Hv)). lia.
+    cbn [tag spec_enc visit]. rewrite <- app_assoc, take_n_le_enc, le_dec_enc by (cbn; lia).
+    pose proof (tag_pop_tag t [] Hok) as Hp. rewrite app_nil_r in Hp. rewrite Hp.
+    rewrite is_c_tag. cbn [callbacks_b].
+    destruct (b && is_char t) eqn:Ebc.
+    + (* the visitor takes the whole string *)
+      apply andb_true_iff in Ebc. destruct Ebc as [_ Hc]. destruct t as [a| | | | | | |]; try discriminate Hc. destruct a; try discriminate Hc.
+      rewrite (chars_enc vs Hall).
+      replace (N.of_nat (length vs)) with (lenN (map raw_of vs)) by (unfold lenN; now rewrite map_length).
+      rewrite takeN_exact. reflexivity.
+    + destruct (N.ltb_spec 32 (N.of_nat (length vs))); [lia|].
+      rewrite seq_loopN_eq, Nat2N.id, seq_loop_agrees.
+      * cbn [prepend app]. reflexivity.
+      * assert (Hnt : t <> TUnit) by (intros ->; discriminate Hs).
+        rewrite Forall_forall in *. intros v Hv r. apply (H v Hv t false (Hall v Hv) Hs Hnt Hok (Hshs v Hv) Hpl). lia.
   - (* tuple *)
     rewrite wt_tuple in Hwt. cbn [short simple ty_ok depth] in *. rewrite spec_tuple.
-    cbn [tag callbacks visit]. unfold drop, drop_last. cbn [skipn]. rewrite removelast_app_one.
-    rewrite (tuple_loop_agrees full f vs ts rest []); [cbn [prepend app]; reflexivity| |pose proof (tags_length_le ts); lia].
-    clear rest Hnu. revert ts Hwt Hs Hok Hfuel. induction H as [|v vs Hv _ IH]; intros ts Hwt Hs Hok Hfuel; destruct ts as [|t ts]; try discriminate; [constructor|].
+    cbn [tag callbacks_b visit]. unfold drop, drop_last. cbn [skipn]. rewrite removelast_app_one.
+    rewrite (tuple_loop_agrees full b sp f vs ts rest []); [cbn [prepend app]; reflexivity| |pose proof (tags_length_le ts); lia].
+    clear rest Hnu. cbn [plain] in Hpl. revert ts Hwt Hs Hok Hfuel Hpl. induction H as [|v vs Hv _ IH]; intros ts Hwt Hs Hok Hfuel Hpl; destruct ts as [|t ts]; try discriminate; [constructor|]. destruct Hpl as [P1 P2].
     cbn [wt_members forallb fold_right] in *. apply andb_true_iff in Hwt. destruct Hwt as [W1 W2]. apply andb_true_iff in Hs. destruct Hs as [S1 S2].
     apply andb_true_iff in Hok. destruct Hok as [O1 O2]. apply andb_true_iff in Hsh. destruct Hsh as [Sh1 Sh2].
     constructor; [split; [exact O1|]|apply IH; auto; lia].
     assert (Hnt : t <> TUnit) by (intros ->; discriminate S1).
-    intros r. apply (Hv t false W1 S1 Hnt O1 Sh1). lia.
+    intros r. apply (Hv t false W1 S1 Hnt O1 Sh1 P1). lia.
   - (* struct *)
     rewrite wt_struct in Hwt. cbn [short simple ty_ok depth] in *. rewrite spec_struct.
     apply andb_true_iff in Hs. destruct Hs as [Hne Hs]. apply andb_true_iff in Hok. destruct Hok as [Hn Hfs].
     destruct (name_ok_transp _ Hn) as (_ & _ & _ & _ & H96 & _).
     destruct fields as [|f0 fs0] eqn:Ef; [discriminate|]. rewrite <- Ef in *.
     assert (Hft : fields_tag fields = 96 :: (fst f0 ++ [39] ++ tag (snd f0)) ++ fields_tag fs0) by (rewrite Ef; unfold fields_tag; cbn [map concat app]; reflexivity).
-    cbn [tag callbacks visit]. fold (fields_tag fields). unfold drop_last.
+    cbn [tag callbacks_b visit]. fold (fields_tag fields). unfold drop_last.
     replace (123 :: name ++ fields_tag fields ++ [125]) with ((123 :: name ++ fields_tag fields) ++ [125]) by (cbn [app]; now rewrite <- app_assoc).
     rewrite removelast_app_one. unfold remove_prefix_before. rewrite Hft. rewrite (find_pos_struct name _ H96).
     replace (123 :: name ++ 96 :: (fst f0 ++ [39] ++ tag (snd f0)) ++ fields_tag fs0) with ((123 :: name) ++ 96 :: (fst f0 ++ [39] ++ tag (snd f0)) ++ fields_tag fs0) by reflexivity.
     change (S (length name)) with (length (123 :: name)). rewrite firstn_app_exact, skipn_app_exact. rewrite <- Hft. unfold drop. cbn [skipn].
-    unfold no_special at 1.
-    rewrite (struct_loop_agrees full f vs fields rest []); [cbn [prepend app]; reflexivity| |lia].
-    clear Hft Ef Hne f0 fs0 rest Hnu. revert Hwt Hs Hfs Hfuel. generalize fields as fs. induction H as [|v vs Hv _ IH]; intros fs Hwt Hs Hfs Hfuel; destruct fs as [|fd fs]; try discriminate; [constructor|].
+    cbn [plain] in Hpl. destruct Hpl as [Hsp Hpl]. fold (fields_tag fields) in Hsp. rewrite Hsp.
+    rewrite (struct_loop_agrees full b sp f vs fields rest []); [cbn [prepend app]; reflexivity| |lia].
+    clear Hft Ef Hne f0 fs0 rest Hnu Hsp. revert Hwt Hs Hfs Hfuel Hpl. generalize fields as fs. induction H as [|v vs Hv _ IH]; intros fs Hwt Hs Hfs Hfuel Hpl; destruct fs as [|fd fs]; try discriminate; [constructor|]. destruct Hpl as [P1 P2].
     cbn [wt_members forallb fold_right map] in *. apply andb_true_iff in Hwt. destruct Hwt as [W1 W2]. apply andb_true_iff in Hs. destruct Hs as [S1 S2].
     apply andb_true_iff in Hfs. destruct Hfs as [O1 O2]. apply andb_true_iff in O1. destruct O1 as [L1 T1]. apply andb_true_iff in Hsh. destruct Hsh as [Sh1 Sh2].
     constructor; [split; [exact L1|split; [exact T1|]]|apply IH; auto; lia].
     assert (Hnt : snd fd <> TUnit) by (intros Q; rewrite Q in S1; discriminate S1).
-    intros r. apply (Hv (snd fd) false W1 S1 Hnt T1 Sh1). lia.
+    intros r. apply (Hv (snd fd) false W1 S1 Hnt T1 Sh1 P1). lia.
   - (* null pointer / empty optional *)
-    cbn [tag spec_enc callbacks visit]. unfold drop, drop_last. cbn [skipn app].
+    cbn [tag spec_enc callbacks_b visit]. unfold drop, drop_last. cbn [skipn app].
     replace (48 :: tag t ++ [62]) with ((48 :: tag t) ++ [62]) by reflexivity. rewrite removelast_app_one.
     change (take_n 1 (0 :: rest)) with (take_n 1 (le_enc 1 0 ++ rest)). rewrite take_n_le_enc, le_dec_enc by (cbn; lia). cbn [N.iter].
     rewrite (tfs_pop_plain 48 (tag t)) by (intros Q; discriminate Q). cbn [is_null_tag N.eqb Pos.eqb prepend app]. reflexivity.
   - (* non-null *)
     cbn [wt short simple ty_ok depth] in *.
-    cbn [tag spec_enc callbacks visit]. unfold drop, drop_last. cbn [skipn app].
+    cbn [tag spec_enc callbacks_b visit]. unfold drop, drop_last. cbn [skipn app].
     replace (48 :: tag t ++ [62]) with ((48 :: tag t) ++ [62]) by reflexivity. rewrite removelast_app_one.
     change (take_n 1 (1 :: spec_enc t v ++ rest)) with (take_n 1 (le_enc 1 1 ++ spec_enc t v ++ rest)). rewrite take_n_le_enc, le_dec_enc by (cbn; lia). cbn [N.iter Pos.iter].
     rewrite (tfs_pop_plain 48 (tag t)) by (intros Q; discriminate Q). cbn [snd].
     pose proof (tag_pop_tag t [] Hok) as Hp. rewrite app_nil_r in Hp. rewrite Hp.
     rewrite (not_null_tag t Hs).
-    rewrite (IHv t false Hwt Hs ltac:(destruct t; try discriminate; congruence) Hok Hsh f rest ltac:(lia)).
+    rewrite (IHv t false Hwt Hs ltac:(destruct t; try discriminate; congruence) Hok Hsh Hpl f rest ltac:(lia)).
     cbn [prepend app]. rewrite <- ?app_assoc. reflexivity.
   - (* variant alternative *)
     cbn [wt short simple ty_ok depth] in *. apply andb_true_iff in Hs. destruct Hs as [Hs H256]. apply N.ltb_lt in H256.
     destruct (nth_error ts i) as [ti|] eqn:Ei; [|discriminate].
     assert (Hi : (i < length ts)%nat) by (apply nth_error_Some; congruence).
-    cbn [tag spec_enc callbacks visit]. rewrite Ei. unfold drop, drop_last. cbn [skipn].
+    cbn [tag spec_enc callbacks_b visit]. rewrite Ei. unfold drop, drop_last. cbn [skipn].
     replace (concat (map tag ts) ++ [48; 62]) with ((concat (map tag ts) ++ [48]) ++ [62]) by (now rewrite <- app_assoc).
     rewrite removelast_app_one.
     rewrite N.mod_small by lia.
@@ -335,12 +373,14 @@ Proof.
     + destruct v; try discriminate Hwt. cbn [tag is_null_tag N.eqb Pos.eqb prepend app spec_enc]. reflexivity.
     + assert (Hsf : simple false ti = true) by (apply simple_weaken; [exact (Hs ti Hin)|exact Hnt]).
       rewrite (not_null_tag ti Hsf).
-      rewrite (IHv ti false Hwt Hsf Hnt (Hok ti Hin) Hsh f rest).
+      assert (Hpti : plain sp ti).
+      { clear - Hpl Hin. cbn [plain] in Hpl. induction ts as [|x ts IHts]; [contradiction|]. destruct Hpl as [P1 P2]. destruct Hin as [->|Hin]; [exact P1|apply IHts; assumption]. }
+      rewrite (IHv ti false Hwt Hsf Hnt (Hok ti Hin) Hsh Hpti f rest).
       * destruct ti; try congruence; cbn [prepend app]; rewrite <- ?app_assoc; reflexivity.
       * pose proof (max_fold_ge ts ti Hin). lia.
   - (* valueless *)
     cbn [wt short simple ty_ok depth] in *. apply andb_true_iff in Hs. destruct Hs as [Hs H256]. apply N.ltb_lt in H256.
-    cbn [tag spec_enc callbacks visit]. unfold drop, drop_last. cbn [skipn].
+    cbn [tag spec_enc callbacks_b visit]. unfold drop, drop_last. cbn [skipn].
     replace (concat (map tag ts) ++ [48; 62]) with ((concat (map tag ts) ++ [48]) ++ [62]) by (now rewrite <- app_assoc).
     rewrite removelast_app_one. rewrite N.mod_small by lia.
     cbn [take_n app le_dec]. rewrite N.mul_0_r, N.add_0_r.
@@ -351,6 +391,19 @@ Qed.
 
 
 (** with the real serializer and the recursion limit of visit.hpp *)
+Lemma plain_no_special t : plain no_special t.
+Proof.
+  induction t using ty_ind'; cbn [plain]; auto.
+  - induction H as [|x l Hx _ IH]; [exact I|split; assumption].
+  - induction H as [|x l Hx _ IH]; [exact I|split; assumption].
+  - split; [reflexivity|]. induction H as [|x l Hx _ IH]; [exact I|split; assumption].
+Qed.
+
+Theorem visit_agrees_partial full : forall v t inv, wt t v = true -> simple inv t = true -> t <> TUnit -> ty_ok t = true -> short v = true -> agrees full false no_special t v.
+Proof.
+  intros v t inv Hwt Hs Hnu Hok Hsh. apply (visit_agrees_gen full false no_special v t inv); auto. apply plain_no_special.
+Qed.
+
 Corollary visit_agrees_2048 v t rest : wt t v = true -> simple false t = true -> ty_ok t = true -> short v = true -> (depth t <= 2048)%nat ->
   visit false no_special 2048 (tag t) (tag t) (enc t v ++ rest) = VOk (callbacks t v, rest).
 Proof.
